@@ -29,8 +29,21 @@ pub struct Optimizer<F>(core::marker::PhantomData<F>);
 
 impl<F: Field> Optimizer<F> {
     pub fn optimize(ops: Vec<Op<F>>) -> (Vec<Op<F>>, HashMap<WitnessId, WitnessId>) {
+        Self::optimize_with_inputs(ops, &[])
+    }
+
+    /// Like [`Self::optimize`], with the witness slots of the private inputs, which hold a
+    /// value before the first op executes although no op defines them.
+    pub fn optimize_with_inputs(
+        ops: Vec<Op<F>>,
+        private_inputs: &[WitnessId],
+    ) -> (Vec<Op<F>>, HashMap<WitnessId, WitnessId>) {
         let (ops, rewrite) = Deduplicator::new().run(ops);
-        let ops = MulAddFusion::new(&ops).run(ops);
+        let predefined: Vec<WitnessId> = private_inputs
+            .iter()
+            .map(|id| id.resolve(&rewrite))
+            .collect();
+        let ops = MulAddFusion::with_predefined(&ops, &predefined).run(ops);
         (ops, rewrite)
     }
 }
